@@ -92,11 +92,11 @@ theorem AcctInv.step {s : State} (h : AcctInv s) (hw : WorkerInv s) (st : Step) 
     · exact h
     · rename_i hd
       have hph : s.phase1 = false := by
-        rcases hv.1.2 with hp | hp
+        rcases hv.2 with hp | hp
         · exact hp
         · simp at hp; exact absurd hp hd
       have h1 : AcctInv { s with undo := s.undo ++ [{ id := s.nextTask, lvl := levelOf prio, cb := cb }],
-                                 nextTask := s.nextTask + 1, pend := true } := by
+                                 nextTask := s.nextTask + 1, pend := s.pend + 1 } := by
         constructor
         · intro id hid
           by_cases e : id = s.nextTask
